@@ -71,6 +71,39 @@ def render_all():
         add(os.path.basename(ex) + ':content', d.contentxml())
     return res
 
+OF = 'urn:oasis:names:tc:opendocument:xmlns:of:1.2'
+VALUE_CASES = [
+  ('known-prefix', 'table:formula', 'of', OF, 'of:=SUM([.A1])'),
+  ('known-prefix-no-equals', 'table:formula', 'ooow', 'http://openoffice.org/2004/writer', 'ooow:<A1>+<B1>'),
+  ('known-prefix-token', 'table:formula', 'oooc', 'http://openoffice.org/2004/calc', 'oooc:sum'),
+  ('own-prefix-for-known-namespace', 'table:formula', 'calc', OF, 'calc:=SUM([.A1])'),
+  ('foreign-namespace', 'table:formula', 'msoxl', 'http://schemas.microsoft.com/office/excel/formula', 'msoxl:=SUM(A1)'),
+]
+
+def find_attr(t, local):
+    if t[0] != 'E': return None
+    for a, v in t[2]:
+        if a[1] == local: return v
+    for k in t[3]:
+        r = find_attr(k, local)
+        if r is not None: return r
+    return None
+
+def value_prefix_results():
+    """load a package using a prefix inside an attribute value, save, report what the output declares"""
+    from odf.opendocument import load
+    out = []
+    for tag, attr, pfx, uri, formula in VALUE_CASES:
+        body = ('<table:table table:name="T"><table:table-column/><table:table-row><table:table-cell %s="%s"><text:p>1</text:p>'
+                '</table:table-cell></table:table-row></table:table>') % (attr, P.xml_attr(formula))
+        doc = load(io.BytesIO(P.simple_package(body, extra_ns={pfx: uri})))
+        data = doc.contentxml()
+        tree = X.expat_parse(data)
+        val = find_attr(tree[1], attr.split(':')[1]) if tree[0] == 'ok' else None
+        out.append({'case': tag, 'formula': formula, 'prefix': pfx, 'uri': uri, 'value': val, 'decls': decl_table(data)})
+    return out
+
 if __name__ == '__main__':
     sys.path.insert(0, os.environ.get('VERIF_REPO', '/repo'))
-    json.dump(render_all(), sys.stdout)
+    vp = value_prefix_results()          # first: nothing else has touched the namespace tables yet
+    json.dump({'docs': render_all(), 'value_prefix': vp}, sys.stdout)
